@@ -426,8 +426,15 @@ class VersionConverter(object):
         if named_path not in elem_map:
             elem_map[named_path] = 1
         else:
-            elem_map[named_path] += 1
-            name.text += "-" + str(elem_map[named_path])
+            # The new name must not be used by any other Section or Property on this level.
+            entity = name.getparent()
+            taken = [sib.findtext("name") for sib in entity.getparent().iterchildren(entity.tag)]
+            while True:
+                elem_map[named_path] += 1
+                new_name = "%s-%s" % (name.text, elem_map[named_path])
+                if new_name not in taken:
+                    break
+            name.text = new_name
 
     def _check_add_ids(self, tree):
         """
